@@ -2,13 +2,16 @@
 and record, per operation, what the model's `obs` type records.
 
 Case format (JSON):
-  {"fns": [{"kind": "func"|"method"|"obj", "eq": <int>, "raises": [[sig, run|null, seq|null], ...]}, ...],
+  {"fns": [{"kind": "func"|"method"|"obj", "eq": <int>, "raises": [[sig, run|null, seq|null], ...],
+            "acts": [[[sig, run|null, seq|null], ["unsub", tok] | ["sub", fn, name]], ...]   (optional)}, ...],
    "ops": [["sub", fn, name] | ["unsub", tok] | ["ignore", bool] | ["unsub_all"] | ["reset"]
            | ["call", {"form": "dict"|"list"|"callable"|"none", "items": [[name, [fn, ...]], ...]}, [msg, ...]]]}
   msg = ["open"] | ["event"] | ["close"] | ["null"] | ["sub", fn, name] | ["unsub", tok, "arg"|"kw"]
 fn = index into fns.  "eq" is the Python-equality class: functions and bound methods are only equal to
 themselves (the harness asserts their eq value is unique); "obj" callables are instances of a class whose
 __eq__/__hash__ compare that key, so two distinct objects can be equal.
+"acts": when invoked on a document matching the pattern the callable calls RE.unsubscribe(tok) or
+RE.subscribe(fns[fn], name) (fn must itself have no acts; name is 'all' or a document name) before it returns/raises.
 """
 import asyncio
 import logging
@@ -74,21 +77,33 @@ class World:
             return ["stop", self.runs[doc["run_start"]], doc["exit_status"] == "success"]
         return [name]
 
+    @staticmethod
+    def _pat(p, cd):
+        s, r, q = p
+        if s != cd[0]:
+            return False
+        if r is not None and r != cd[1]:
+            return False
+        if cd[0] == "event" and q is not None and q != cd[2]:
+            return False
+        return True
+
     def _matches(self, i, cd):
-        for s, r, q in self.specs[i]["raises"]:
-            if s != cd[0]:
-                continue
-            if r is not None and r != cd[1]:
-                continue
-            if cd[0] == "event" and q is not None and q != cd[2]:
-                continue
-            return True
-        return False
+        return any(self._pat(p, cd) for p in self.specs[i]["raises"])
 
     def _invoke(self, i, name, doc):
         cd = self.canon(name, doc)
         r = self._matches(i, cd)
         self.log.append(("call", i, cd, r))
+        for pat, act in self.specs[i].get("acts", []):
+            if self._pat(pat, cd):
+                if act[0] == "unsub":
+                    self.RE.unsubscribe(act[1])
+                    self.log.append(("cb_unsub", act[1]))
+                else:
+                    assert not self.specs[act[1]].get("acts"), "a callable subscribed by a callback must be plain"
+                    t = self.RE.subscribe(self.callable(act[1]), act[2])
+                    self.log.append(("cb_sub", act[1], act[2], int(t)))
         if r:
             raise ValueError("cb%d" % i)
 
@@ -151,6 +166,7 @@ def run_history(case):
 
     RE = RunEngine({}, loop=_get_loop(), context_managers=[])
     w = World(case["fns"])
+    w.RE = RE
     det = Det()
 
     # emission marker: Dispatcher.process is looked up on the instance at every emit
@@ -234,7 +250,7 @@ def run_history(case):
                 if ent[0] == "emit":
                     ems.append([ent[1], []])
                     timeline.append(["emit", len(ems) - 1])
-                elif ent[0] in ("sub", "unsub", "try_sub"):
+                elif ent[0] in ("sub", "unsub", "try_sub", "cb_sub", "cb_unsub"):
                     timeline.append(list(ent))
                 else:
                     if not ems or ems[-1][0] != ent[2]:
@@ -284,10 +300,24 @@ def copt(x):
     return "None" if x is None else "(Some %d)" % x
 
 
+def cpat(p):
+    return "(%s, %s, %s)" % (csig(p[0]), copt(p[1]), copt(p[2]))
+
+
 def cfn(case, i):
     f = case["fns"][i]
-    pats = cl(f["raises"], lambda p: "(%s, %s, %s)" % (csig(p[0]), copt(p[1]), copt(p[2])))
-    return "(mk_fn %d %d %s)" % (i, f["eq"], pats)
+    pats = cl(f["raises"], cpat)
+    if not f.get("acts"):
+        return "(mk_fn %d %d %s)" % (i, f["eq"], pats)
+
+    def cact(pa):
+        pat, act = pa
+        if act[0] == "unsub":
+            return "(%s, CbUnsub %d)" % (cpat(pat), act[1])
+        g = case["fns"][act[1]]
+        n = "None" if act[2] == "all" else "(Some %s)" % csig(act[2])
+        return "(%s, CbSub %d %d (pats_fun %s) %s)" % (cpat(pat), act[1], g["eq"], cl(g["raises"], cpat), n)
+    return "(mk_fn_a %d %d %s %s)" % (i, f["eq"], pats, cl(f["acts"], cact))
 
 
 def cmsg(case, m):
